@@ -3,6 +3,7 @@ import LentilVerif.Lemmas.PlaneAlg
 import LentilVerif.Lemmas.PropLinear
 import LentilVerif.Lemmas.ChainExtents
 import LentilVerif.Lemmas.Window
+import LentilVerif.Lemmas.PlaneComplex
 import LentilVerif.Props.C07
 /-! # C03 — splitting an aperture into segments never changes the result
 
@@ -229,6 +230,44 @@ theorem views_depend_on_total (nsq : K → K) (h0 : nsq 0 = 0) (S0 S1 : Int) (A 
   exact ⟨rfl, rfl⟩
 
 end coherent
+
+/-! ## Independence of array size and of the unit of length -/
+section invariance
+variable {K R : Type} [Add R] [Sub R] [Mul R] [Neg R] [RealLike R] [NonUnitalNonAssocSemiring K] [CxLike K R]
+
+/-- **`dft2` may be evaluated in blocks of any height**: if a family of sub-arrays (row blocks, column blocks, tiles — of any
+sizes, each carried with its own offset) has the same total embedding as the field `f`, the sum of their transforms is
+the transform of `f`, at every output sample. There is no size beyond which a different formula applies. -/
+theorem dft2_any_blocks (f : Fld K) (blocks : List (Fld K)) (hf : 0 < f.arr.s0 ∧ 0 < f.arr.s1)
+    (hb : ∀ b ∈ blocks, 0 < b.arr.s0 ∧ 0 < b.arr.s1)
+    (htot : ∀ r c, sumList blocks (fun b => b.emb r c) = f.emb r c)
+    (αr αc : R) (M N : Int) (shr shc : R) (u v : Int) :
+    sumList blocks (fun b => (dft2 b.arr αr αc M N shr shc b.o0 b.o1 false).get u v)
+      = (dft2 f.arr αr αc M N shr shc f.o0 f.o1 false).get u v := by
+  obtain ⟨R0, H, C0, W, hbox⟩ := exists_box (f :: blocks)
+  rw [sum_dft2_eq_boxDft blocks hb αr αc M N shr shc u v R0 H C0 W (fun b hb' => hbox b (List.mem_cons_of_mem _ hb')),
+      dft2_eq_boxDft f hf αr αc M N shr shc u v R0 H C0 W (hbox f (List.mem_cons_self ..))]
+  exact boxDft_congr _ _ htot _ _ _ _ _ _ _ _ _ _ _ _
+
+end invariance
+
+section units
+attribute [local instance] PlaneC.realLikeReal
+
+/-- **the sampling parameter is unit-free**: `_dft_alpha` is unchanged when every length (both pixel scales, wavelength, focal
+length) is multiplied by the same `k ≠ 0` — propagating in metres, millimetres or nanometres is the same computation -/
+theorem dftAlpha_unit_free (k dx0 dx1 du0 du1 wl z : ℝ) (os : Int) (hk : k ≠ 0) :
+    dftAlpha (k * dx0) (k * dx1) (k * du0) (k * du1) (k * wl) (k * z) os = dftAlpha dx0 dx1 du0 du1 wl z os := by
+  unfold dftAlpha Gen.dftAlphaCall Gen.dftAlpha
+  have hkk : k * k ≠ 0 := mul_ne_zero hk hk
+  rw [Prod.mk.injEq]
+  constructor
+  · rw [show k * dx0 * (k * du0) = (k * k) * (dx0 * du0) by ring,
+        show k * wl * (k * z) * RealLike.ofInt os = (k * k) * (wl * z * RealLike.ofInt os) by ring, mul_div_mul_left _ _ hkk]
+  · rw [show k * dx1 * (k * du1) = (k * k) * (dx1 * du1) by ring,
+        show k * wl * (k * z) * RealLike.ofInt os = (k * k) * (wl * z * RealLike.ofInt os) by ring, mul_div_mul_left _ _ hkk]
+
+end units
 
 /-! ## End to end -/
 section endtoend
